@@ -250,7 +250,7 @@ def panic_inventory(ctx, rule):
             cls = None
             if _in_debug_assert(ctx, b, bi):
                 cls = "debug-assert"
-            elif b.id in ctx.model.tls_closure and ctx.model.tls_closure[b.id].rsplit("::", 1)[-1] in ("STORES", "RESULTS"):
+            elif b.id in ctx.model.tls_closure and ctx.model.tls_closure[b.id] in ctx.model.registries():
                 # contract violations the property excludes: duplicate create / use of a missing id
                 if cn.endswith("unwrap"):
                     a = S.strip_refs(sy.operand(t["args"][0]))
